@@ -494,14 +494,18 @@ class FromPandas(PartitionsFiltered, BlockwiseIO):
         return _division_info_cache[key]
 
     def _get_lengths(self) -> tuple | None:
-        if self._pd_length_stats is None:
-            locations = self._locations()
-            self._pd_length_stats = tuple(
-                offset - locations[i]
-                for i, offset in enumerate(locations[1:])
-                if not self._filtered or i in self._partitions
-            )
-        return self._pd_length_stats
+        if self._pd_length_stats is not None:
+            return self._pd_length_stats
+        # Cheap to derive from the (cached) partition locations.  Do not store
+        # the result in the operands: that changes the token of every
+        # expression derived from this one afterwards, so the same collection
+        # would optimize to differently named graphs before and after ``len``
+        locations = self._locations()
+        return tuple(
+            offset - locations[i]
+            for i, offset in enumerate(locations[1:])
+            if not self._filtered or i in self._partitions
+        )
 
     def _simplify_up(self, parent, dependents):
         if isinstance(parent, Lengths):
